@@ -190,6 +190,13 @@ def run_seq(ctx, segs, full):
     ctx.ev(sig("with_path_auth"))
     verify(ctx, "with_path_auth", {"entry": "with_path_auth", "segs": segs, "path": p}, guarded(lambda: URL("http://h/x/y?q#f").with_path(p)),
            rfc.remove_dot_segments(pct25(p)), True)
+    if joined and not joined.startswith("/"):
+        # a ROOTLESS path handed to with_path() on a URL with authority is rooted by the library: the dot segments of the rooted path go
+        qj = pct25(joined)  # (a leading lone surrogate is dropped by the quoter: what is left may be rooted already, or nothing)
+        if qj:
+            ctx.ev(sig("with_path_auth_rootless"))
+            verify(ctx, "with_path_auth_rootless", {"entry": "with_path_auth_rootless", "segs": segs, "path": joined}, guarded(lambda: URL("http://h/x/y?q#f").with_path(joined)),
+                   rfc.remove_dot_segments(qj if qj.startswith("/") else "/" + qj), True)
     ctx.ev(sig("with_path_noauth"))
     verify(ctx, "with_path_noauth", {"entry": "with_path_noauth", "segs": segs, "path": p}, guarded(lambda: URL("/x/y").with_path(p)), pct25(p), False)
     # suffix removal / renaming must never leave a dot segment under an authority
